@@ -331,6 +331,16 @@ def r_stringlike(ctx, cm, r_agree, r_spec):
                 size_a = aff(e['size'], falsy)
                 total = {strip_sites(k) if k != 1 else 1: v
                          for k, v in total.items()}
+                if r_spec and not r_agree:
+                    # the wire format places the NEXT value by this size: a
+                    # size counted in characters instead of bytes misaligns
+                    # whatever follows a non-ASCII string
+                    ctx.ob(r_spec, efi.qualname, 'reported-size=bytes:' + tag,
+                           total == size_a,
+                           'encoder reports %s bytes but writes %s: the value '
+                           'that follows is placed (and padded) by the '
+                           'reported size' % (affine_str(size_a),
+                                              affine_str(total)))
                 if r_agree:
                     ctx.ob(r_agree, efi.qualname, 'chunks=size:' + tag,
                            total == size_a,
